@@ -311,7 +311,8 @@ Proof. unfold hand_xi3, h_xi3. ring. Qed.
 
 Ltac zero_att :=
   rewrite hand_xi1_zero, hand_xi2_zero, hand_xi3_zero; unfold h_att, h_rc;
-  destruct mfr_at_0 as [-> [-> [-> [-> [-> [-> [-> [-> ->]]]]]]]]; ring.
+  destruct mfr_at_0 as [E00 [E01 [E02 [E10 [E11 [E12 [E20 [E21 E22]]]]]]]];
+  rewrite ?E00, ?E01, ?E02, ?E10, ?E11, ?E12, ?E20, ?E21, ?E22; ring.
 
 Lemma hand_C_zero :
   ZERO hand_C00 = C00 /\ ZERO hand_C01 = C01 /\ ZERO hand_C02 = C02 /\
